@@ -169,11 +169,11 @@ def main(argv=None):
     if pid in ('C01', 'C02'):
         # every corpus package is a well-typed program of the fragment: both profiles must produce bytecode
         for (pi, vn), b in builds.items():
-            if not b.ok:
+            if not b.ok and not getattr(b, 'timed_out', False):
                 build_violations.append({'pkg': corpus[pi].name, 'variant': vn, 'log': b.log[-1500:]})
     if pid in ref_names:
         for (pi, vn), b in builds.items():
-            if not b.ok and builds.get((pi, ref_names[pid])) and builds[(pi, ref_names[pid])].ok:
+            if not b.ok and not getattr(b, 'timed_out', False) and builds.get((pi, ref_names[pid])) and builds[(pi, ref_names[pid])].ok:
                 build_violations.append({'pkg': corpus[pi].name, 'variant': vn, 'log': b.log[-1500:]})
     known_printed = set()
     for r in results:
